@@ -218,6 +218,9 @@ pub enum Tm {
     Shared(usize),
     /// builds the first and drops it again, returns the second
     Scratch(Rc<Tm>, Rc<Tm>),
+    /// builds the first and leaks it through a side channel (the harness keeps a handle, so it can
+    /// be adopted and observed later), returns the second
+    Keep(Rc<Tm>, Rc<Tm>),
     /// `var_current_scope(lhs + c).watch()`
     ScopedVar(i64),
     /// fold over several sub-terms
